@@ -219,6 +219,24 @@ pub fn gen_c19(tier: &str, seed: u64, out: &mut Vec<String>) {
         use crate::gen_instr::Class::*;
         crate::gen_instr::gen(&[Data, Lea, Stack, CallRet, Branch, Os], tier, seed ^ 0x1919, 2, 8, out);
     }
+    // … and very long histories: tens of thousands of unmatched returns (counters at the end of their range)
+    {
+        use crate::gen_prog::*;
+        // (returns only: a trace of tens of thousands of *nested calls* renders to gigabytes, indented by depth)
+        for (code, rsp) in [(vec![0xc3u8, 0x90], 0x1000_0000u64)] {
+            emit_new(out, &code, CODE);
+            out.push(setregs_at(&mut rng, CODE));
+            out.push("nomodel".into());
+            out.push("zero 10000000 48000 ~".into());
+            out.push(format!("fill 10000000 9000 {:x}", CODE));
+            out.push(format!("rw 64 RSP {:x}", rsp));
+            out.push(format!("maxinstr {:x}", 32790 + rng.below(8)));
+            out.push("execute 40000".into());
+            out.push("state".into());
+            out.push("tracetail 4".into());
+            out.push("render".into());
+        }
+    }
     // crashes that need a history: more returns than calls (negative nesting level), then a step that fails (its error
     // carries the rendered trace), or a rendering of that state
     {
@@ -344,9 +362,10 @@ pub fn gen_c20(tier: &str, seed: u64, out: &mut Vec<String>) {
     // the implicit ones (iced's used-register analysis) — were ever written: outcome, error text and every named register must not
     // depend on what the constructor left in the others
     {
-        use iced_x86::{Decoder, DecoderOptions, InstructionInfoFactory, Register};
+        use iced_x86::{Decoder, DecoderOptions, InstructionInfoFactory, OpAccess, Register};
         let mut factory = InstructionInfoFactory::new();
         let k = if tier == "thorough" { 12_000 } else { 1_500 };
+        const NAMES: [&str; 16] = ["RAX", "RCX", "RDX", "RBX", "RSP", "RBP", "RSI", "RDI", "R8", "R9", "R10", "R11", "R12", "R13", "R14", "R15"];
         for _ in 0..k {
             let tpl = rng.pick(&temps).clone();
             let mut d = Decoder::with_ip(64, &tpl, CODE, DecoderOptions::NONE);
@@ -354,32 +373,61 @@ pub fn gen_c20(tier: &str, seed: u64, out: &mut Vec<String>) {
             if ins.is_invalid() || ins.len() != tpl.len() {
                 continue;
             }
-            let mut named: Vec<usize> = vec![4]; // RSP always
-            let mut xmm = false;
+            // registers the instruction reads are written beforehand (in full); registers it writes are observed afterwards
+            // through exactly the view it writes — a pure output that is not written keeps the constructor's value and shows
+            let mut reads: Vec<usize> = vec![];
+            let mut xreads: Vec<usize> = vec![];
+            let mut observe: Vec<String> = vec![];
+            let mut ok = true;
             for u in factory.info(&ins).used_registers() {
                 let r = u.register();
                 let f = r.full_register();
+                let (rd, wr) = match u.access() {
+                    OpAccess::Read | OpAccess::CondRead => (true, false),
+                    OpAccess::Write => (false, true),
+                    OpAccess::ReadWrite | OpAccess::ReadCondWrite => (true, true),
+                    OpAccess::CondWrite => {
+                        ok = false;
+                        (false, false)
+                    }
+                    _ => (false, false),
+                };
                 if f.is_gpr64() {
-                    named.push(f.number());
+                    if rd {
+                        reads.push(f.number());
+                    }
+                    if wr {
+                        let name = format!("{:?}", r);
+                        if crate::util::reg_by_name(&name).is_some() {
+                            observe.push(format!("rrok {} {}", 8 * r.size(), name));
+                        } else {
+                            ok = false;
+                        }
+                    }
                 } else if r.is_xmm() {
-                    xmm = true;
+                    if rd {
+                        xreads.push(r.number());
+                    }
+                    if wr {
+                        observe.push(format!("xmmok {}", r.number()));
+                    }
                 } else if f == Register::RIP || f == Register::EIP || r.is_segment_register() {
                 } else {
-                    named.clear();
-                    break;
+                    ok = false;
                 }
             }
-            if named.is_empty() || xmm {
+            if !ok {
                 continue;
             }
-            named.sort();
-            named.dedup();
+            reads.sort();
+            reads.dedup();
+            xreads.sort();
+            xreads.dedup();
             raw.push(format!("newraw {} {:x} {:x}", hex(&tpl), CODE, CODE));
             dec_all(&tpl, CODE, &mut raw);
             raw.push(format!("areaz {:x} 1000 {:x} Stack", STACK, rng.next()));
             raw.push(format!("setflags {:x}", rng.next() & 0xcd5));
-            const NAMES: [&str; 16] = ["RAX", "RCX", "RDX", "RBX", "RSP", "RBP", "RSI", "RDI", "R8", "R9", "R10", "R11", "R12", "R13", "R14", "R15"];
-            for &n in &named {
+            for &n in &reads {
                 let v = if n == 4 {
                     STACK + 0x800
                 } else {
@@ -392,11 +440,18 @@ pub fn gen_c20(tier: &str, seed: u64, out: &mut Vec<String>) {
                 };
                 raw.push(format!("rw 64 {} {:x}", NAMES[n], v));
             }
+            for &n in &xreads {
+                raw.push(format!("setxmm {} {:x}", n, ((rng.val() as u128) << 64) | rng.val() as u128));
+            }
             raw.push("step".into());
             raw.push("state".into());
-            for &n in &named {
+            for &n in &reads {
                 raw.push(format!("rr 64 {}", NAMES[n]));
             }
+            for &n in &xreads {
+                raw.push(format!("xmm {}", n));
+            }
+            raw.extend(observe);
             raw.push("rr 64 RIP".into());
             raw.push(format!("mrb {:x} 100", STACK + 0x780));
         }
